@@ -339,6 +339,35 @@ HELD_CALLS = {
 }
 HELD_MUTATIONS = ("rotate_q0", "flip_sign", "swap_generators")
 
+# calls on other caller-held library objects that are created once per history and then reused
+# (a class object and a table record): methods called repeatedly on the SAME object, with caller-side
+# mutation of what they returned in between
+HELD2_MAKE = {
+    "cls": lambda lib: lib.lc_classes.LCClass4(7),
+    "info": lambda lib: lib.circuit_lookup.stabilizer_circuit_lookup(3, "linear", 4),
+    "graph": lambda lib: lib.graph.Graph.star(4),
+}
+# public value of a held object -> JSON, and the inverse (used by the fresh-interpreter oracle: the reference for a
+# call on a held object is a fresh object with the same CURRENT public value, since a caller may legitimately have
+# changed that value, e.g. through a returned object that shares memory with it)
+HELD2_VALUE = {
+    "cls": lambda o: [o.num_qubits(), int(o.id())],
+    "info": lambda o: [o.num_qubits, "%d:%d:%d:%s" % (o.graph_id, o.cost, o.depth, o.circuit_string)],
+    "graph": lambda o: np.asarray(o.adjacency_matrix).tolist(),
+}
+HELD2_REBUILD = {
+    "cls": lambda lib, v: getattr(lib.lc_classes, "LCClass%d" % v[0])(v[1]),
+    "info": lambda lib, v: lib.circuit_lookup.StabilizerCircuitInfo(v[0], v[1]),
+    "graph": lambda lib, v: lib.graph.Graph(np.array(v, dtype=np.int8)),
+}
+HELD2_CALLS = {
+    "o_cls_graph": ("cls", lambda lib, o: o.get_graph()),
+    "o_cls_id": ("cls", lambda lib, o: [o.id(), repr(o), o.num_qubits()]),
+    "o_info_parse": ("info", lambda lib, o: o.parse_circuit()),
+    "o_graph_lc": ("graph", lambda lib, o: [o.local_complemented(0), o.compress(), o.get_edges()]),
+    "o_graph_stab": ("graph", lambda lib, o: lib.stabilizer.Stabilizer(o)),
+}
+
 
 def make_held(lib):
     return lib.stabilizer.Stabilizer(list(HELD4))
@@ -452,7 +481,7 @@ def clear_caches(lib):
             o.clear()
 
 
-EVENTS = [("call", c) for c in CALLS] + [("hcall", c) for c in HELD_CALLS] + [("mut_result", m) for m in MUTATIONS] + \
+EVENTS = [("call", c) for c in CALLS] + [("hcall", c) for c in HELD_CALLS] + [("ocall", c) for c in HELD2_CALLS] + [("mut_result", m) for m in MUTATIONS] + \
          [("mut_args", m) for m in MUTATIONS] + [("mut_held", m) for m in HELD_MUTATIONS] + [("clear", "caches")]
 
 
@@ -468,8 +497,26 @@ def execute(history):
     last_args = None
     last_call = None
     held = None
+    held2 = {}
     for kind, name in history:
-        if kind == "call":
+        if kind == "ocall":
+            which, fn = HELD2_CALLS[name]
+            if which not in held2:
+                held2[which] = HELD2_MAKE[which](lib)
+            obj = held2[which]
+            before = value_sers(obj)
+            try:
+                val = json.dumps(HELD2_VALUE[which](obj))
+            except Exception as ex:      # noqa: BLE001
+                val = json.dumps("unreadable: %s" % type(ex).__name__)
+            try:
+                res = fn(lib, obj)
+            except Exception as ex:      # noqa: BLE001
+                res = ex
+            after = value_sers(obj)
+            obs.append({"ref": "@" + name + "|" + val, "result": sers(res), "args_before": before, "args_after": after})
+            last_result, last_args, last_call = res, None, name
+        elif kind == "call":
             make, fn = CALLS[name]
             args = make(lib)
             before = value_sers(args)
@@ -510,18 +557,19 @@ def execute(history):
     caller = [("result", last_result)]
     if not (last_args is not None and len(last_args) == 1 and last_args[0] is held):
         caller.append(("args", last_args))
-    sig = alias_signature(caller, extra_roots=[held] if held is not None else [])
+    roots = ([held] if held is not None else []) + [held2[k] for k in sorted(held2)]
+    sig = alias_signature(caller, extra_roots=roots)
     # Caller-held results/arguments that share no mutable object with the package's global state or with the
     # held argument object cannot influence any later call, whatever the caller does to them: such histories
     # are merged (the mutation events are still executed once from every state).
     tail = [last_call, sers(last_result) if not isinstance(last_result, BaseException) else "exc", sers(last_args)] if sig else None
-    state = json.dumps([global_fingerprint(), sers(held), sig, tail])
+    state = json.dumps([global_fingerprint(), sers(held), sig, tail, [[k, sers(held2[k])] for k in sorted(held2)]])
     return obs, state
 
 
 def enabled(history):
     """Events enabled after a history: mutations need a previous call; no two identical mutations in a row."""
-    have_call = any(k in ("call", "hcall") for k, _ in history)
+    have_call = any(k in ("call", "hcall", "ocall") for k, _ in history)
     have_held = any(k == "hcall" for k, _ in history)
     out = []
     for ev in EVENTS:
@@ -576,6 +624,16 @@ def main_ref(name):
 
 
 def main_refheld(ref):
+    if ref.startswith("@"):
+        name, val = ref[1:].split("|", 1)
+        which, fn = HELD2_CALLS[name]
+        lib = fresh_library()
+        try:
+            res = fn(lib, HELD2_REBUILD[which](lib, json.loads(val)))
+        except Exception as ex:      # noqa: BLE001
+            res = ex
+        print(sers(res))
+        return
     name, vals = ref.split("|", 1)
     lib = fresh_library()
     stab = held_from_values(lib, json.loads(vals))
